@@ -1,11 +1,11 @@
 package main
 
 import (
-	"time"
-	"go/constant"
 	"fmt"
+	"go/constant"
 	"sort"
 	"strings"
+	"time"
 
 	"golang.org/x/tools/go/ssa"
 )
